@@ -8,11 +8,34 @@
     ed.dec  <blob> <pkhex> <ok|Class|unused>             primitive table: VerifyKey(pk)
         → ok rsa:<e>:<n> cert=<0|1>  |  ok ec:<bits>:<x>:<y> cert=…  |  ok ed:<hex> cert=…  |  exc <Class>
     eq <keydesc> <keydesc>                  → 0|1     keydesc = rsa:<e>:<n>:<priv01>:<cert01> | ec:<bits>:<x>:<y>:… | ed:<hex>:…
+    write <rsa|ec|ed> <hasPrivate 0|1> <none|other|b:<hex>|s:<hex>>    → ok PEM TraditionalOpenSSL <NoEncryption|Best:<hex>> | exc <Class>
+    writefile <cls> <0|1> <pass> <none|octal existing mode> <octal umask>  → <call> | <absent | <octal mode> key|nokey>
     mode <none|octal existing mode> <octal umask>       → octal mode of the key file after writing
 -/
 import PV.Props.C36
 import PV.Base.DriverIO
 open PV PV.Wire PV.Sig PV.PubKey
+
+section write
+open PV.KeyWrite
+
+def pass? (s : String) : Option Pass :=
+  if s == "none" then some .none else if s == "other" then some .other
+  else match s.splitOn ":" with
+    | ["b", h] => (ofHex? h).map .bytes
+    | ["s", h] => (ofHex? h).map .str
+    | _ => none
+
+def wcls? (s : String) : Option KeyWrite.Cls :=
+  if s == "rsa" then some .rsa else if s == "ec" then some .ec else if s == "ed" then some .ed else none
+
+def showCall : Except WErr Call → String
+  | .ok c => match c.enc with
+    | .noEncryption => "ok PEM TraditionalOpenSSL NoEncryption"
+    | .best pw => "ok PEM TraditionalOpenSSL Best:" ++ toHexTok pw
+  | .error e => "exc " ++ e.name
+
+end write
 
 def curveBits? (s : String) : Option Curve :=
   if s == "256" then some .p256 else if s == "384" then some .p384 else if s == "521" then some .p521 else none
@@ -102,6 +125,18 @@ def step (line : String) : String :=
     match keyDesc? a, keyDesc? b with
     | some a, some b => if keyEq a b then "1" else "0"
     | _, _ => "bad-op"
+  | ["write", c, hp, p] =>
+    match wcls? c, pass? p with
+    | some c, some p => showCall (KeyWrite.writeKey c (hp == "1") p)
+    | _, _ => "bad-op"
+  | ["writefile", c, hp, p, ex, um] =>
+    match wcls? c, pass? p, octal? um, (if ex == "none" then some none else (octal? ex).map some) with
+    | some c, some p, some u, some ex =>
+      let r := KeyWrite.writeKeyFile c (hp == "1") p ex u
+      showCall r.1 ++ " | " ++ (match r.2 with
+        | none => "absent"
+        | some fa => toOctal fa.mode ++ (if fa.holdsKey then " key" else " nokey"))
+    | _, _, _, _ => "bad-op"
   | ["mode", ex, um] =>
     match octal? um with
     | some u =>
